@@ -126,6 +126,14 @@ class Recorder:
     def on_status_inaccuracy(self, obj): self.log.append('inacc')
     def on_value_change(self, obj): self.log.append('change')
 
+class Acknowledger:
+    """a callback object that acknowledges every event by clearing the flags of the object at once (a 'log and reset' handler):
+    what is stored does not depend on it"""
+    def on_status_overflow(self, obj): obj.reset()
+    def on_status_underflow(self, obj): obj.reset()
+    def on_status_inaccuracy(self, obj): obj.reset()
+    def on_value_change(self, obj): pass
+
 def run_impl_store(case, with_callbacks=False):
     """returns dict(codes, getval, asfloat, status, events, shape) or dict(exc=...)"""
     fx = lib.impl(); import numpy as np
@@ -135,6 +143,7 @@ def run_impl_store(case, with_callbacks=False):
     val = build_carrier(case['carrier'], vals)
     rec = Recorder() if with_callbacks else None
     if rec is not None: kw['callbacks'] = [rec]
+    if case.get('ack'): kw['callbacks'] = [Acknowledger()]
     try:
         route = case['route']
         if route == 'ctor':
@@ -153,7 +162,14 @@ def run_impl_store(case, with_callbacks=False):
             if rec: rec.log.clear()
             mode = case.get('setmode', 'slice')
             flat = np.asarray(val).reshape(-1) if not isinstance(val, (int, float, str)) else [val]
-            if case['carrier'] in ('pyint', 'pyfloat', 'str', 'str_exp', 'npstr') or str(case['carrier']).startswith('scalar:'):
+            if mode == 'view':
+                # element writes THROUGH A VIEW (row = x[1]; row[i] = v) of a 2-D object: the value lands in x rounded and overflowed by x's modes
+                x = fx.Fxp(np.zeros((2, n), dtype=int), s, nw, nf, **kw)
+                if rec: rec.log.clear()
+                row = x[1]
+                for i in range(n): row[i] = flat[i].item() if hasattr(flat[i], 'item') else flat[i]
+                x = x[1]
+            elif case['carrier'] in ('pyint', 'pyfloat', 'str', 'str_exp', 'npstr') or str(case['carrier']).startswith('scalar:'):
                 x[0] = val
             elif mode == 'each':
                 for i in range(n): x[i] = flat[i].item() if hasattr(flat[i], 'item') else flat[i]
